@@ -1,5 +1,7 @@
 import QV.Drive.Util
 import QV.Model.Ast2Ast
+import QV.Model.SemSrc
+import QV.Drive.C01
 /-! JSON handler of `c01.ast2ast`: the source statement tree (CPython `ast`, before any pass) to the tree
 the model of `qlasskit.ast2ast.ast2ast` produces, in the same serialisation the harness gives the tree
 of the real pass (`harness/a2a.py`). -/
@@ -120,9 +122,30 @@ def ast2astOp (j : Json) : R Json := do
   | .error (.exc ty key) => pure (Json.mkObj [("exception", arr [Json.str ty, Json.str key])])
   | .error (.outside why) => pure (Json.mkObj [("outside", Json.str why)])
 
+/-- `c01.semsrc`: the source-level meaning `QV.A2A.execProg` (after the constant folding of the source,
+`foldSs`: constant sub-expressions are python ints) on every assignment of the argument bits: one string of
+return bits per row, `null` where it gives no meaning -/
+def semsrcOp (j : Json) : R Json := do
+  let args ← (← (← j.getObjVal? "args").getArr?).toList.mapM fun e => do
+    let p ← e.getArr?
+    return (← p[0]!.getStr?, ← QV.Drive.C01.parseTy p[1]!)
+  let ret ← QV.Drive.C01.parseTy (← j.getObjVal? "ret")
+  let body ← (← (← j.getObjVal? "body").getArr?).toList.mapM parseS
+  let argBits := args.flatMap fun (n, t) => t.names n
+  match foldSs body with
+  | .error _ => pure (Json.mkObj [("rows", Json.null)])
+  | .ok body1 =>
+    let prog : SProg := ⟨args, ret, body1⟩
+    let rows : List Json := (List.range (2 ^ argBits.length)).map fun k =>
+      match execProg prog (assignment argBits k) with
+      | some v => Json.str (bitsToString v.bits)
+      | none => Json.null
+    pure (Json.mkObj [("rows", Json.arr rows.toArray)])
+
 def handle (op : String) (j : Json) : Option (Except String Json) :=
   match op with
   | "c01.ast2ast" => some (ast2astOp j)
+  | "c01.semsrc" => some (semsrcOp j)
   | _ => none
 
 end QV.Drive.Ast2Ast
